@@ -851,3 +851,71 @@ class ConstEval:
 
                 return math.sqrt(self.eval(node.args[0], m, env))
         raise Unknown(f"call {src(node)}")
+
+
+def eval_module_table(ev: ConstEval, m: ModuleInfo, name: str):
+    """Value of a module-level list built by `name = [...]` followed by
+    module-level (nested) for-loops that `name.append(expr)` / `name += [...]`."""
+    value = None
+    started = False
+
+    def run_block(stmts, env):
+        nonlocal value
+        for st in stmts:
+            if isinstance(st, ast.For):
+                it = ev.eval(st.iter, m, env)
+                for item in it:
+                    env2 = dict(env)
+                    bind(st.target, item, env2)
+                    run_block(st.body, env2)
+            elif isinstance(st, ast.Expr) and isinstance(st.value, ast.Call) and isinstance(st.value.func, ast.Attribute) \
+                    and isinstance(st.value.func.value, ast.Name) and st.value.func.value.id == name:
+                meth = st.value.func.attr
+                args = [ev.eval(a, m, env) for a in st.value.args]
+                if meth == "append":
+                    value.append(args[0])
+                elif meth == "extend":
+                    value.extend(args[0])
+                else:
+                    raise Unknown(f"{name}.{meth} at module level")
+            elif isinstance(st, ast.AugAssign) and isinstance(st.target, ast.Name) and st.target.id == name and isinstance(st.op, ast.Add):
+                value.extend(ev.eval(st.value, m, env))
+            elif any(isinstance(n, ast.Name) and n.id == name and isinstance(n.ctx, (ast.Store, ast.Del)) for n in ast.walk(st)):
+                raise Unknown(f"unsupported module-level mutation of {name}: {src(st)[:60]}")
+            elif any(isinstance(n, ast.Name) and n.id == name for n in ast.walk(st)) and isinstance(st, (ast.For, ast.While, ast.If, ast.Expr)):
+                # mentions inside functions are uses, not mutations; only flag direct statements
+                if not isinstance(st, (ast.FunctionDef, ast.ClassDef)):
+                    raise Unknown(f"unsupported module-level use of {name}: {src(st)[:60]}")
+
+    def bind(target, item, env):
+        if isinstance(target, ast.Name):
+            env[target.id] = item
+        elif isinstance(target, (ast.Tuple, ast.List)):
+            for t, v in zip(target.elts, item):
+                bind(t, v, env)
+
+    for st in m.tree.body:
+        if not started:
+            tgt = None
+            if isinstance(st, ast.Assign) and len(st.targets) == 1 and isinstance(st.targets[0], ast.Name) and st.targets[0].id == name:
+                tgt = st.value
+            elif isinstance(st, ast.AnnAssign) and isinstance(st.target, ast.Name) and st.target.id == name and st.value is not None:
+                tgt = st.value
+            if tgt is not None:
+                value = ev.eval(tgt, m)
+                if not isinstance(value, list):
+                    raise Unknown(f"{name} is not a list")
+                value = list(value)
+                started = True
+            continue
+        if isinstance(st, (ast.FunctionDef, ast.AsyncFunctionDef, ast.ClassDef)):
+            continue
+        if isinstance(st, (ast.Assign, ast.AnnAssign)):
+            tg = st.targets if isinstance(st, ast.Assign) else [st.target]
+            if any(isinstance(t, ast.Name) and t.id == name for t in tg):
+                raise Unknown(f"{name} re-assigned at module level")
+            continue
+        run_block([st], {})
+    if not started:
+        raise Unknown(f"module-level table {name} not found")
+    return value
